@@ -1,4 +1,5 @@
 import JwtModel.DidSign
+import Props.FnTie
 /-!
 # C08 — signer attribution follows the operator / account trust rules
 
